@@ -5,6 +5,8 @@ type nat =
 | O
 | S of nat
 
+val fst : ('a1 * 'a2) -> 'a1
+
 val snd : ('a1 * 'a2) -> 'a2
 
 val length : 'a1 list -> nat
@@ -84,6 +86,8 @@ module Coq_Pos :
 
   val coq_land : positive -> positive -> n
 
+  val ldiff : positive -> positive -> n
+
   val shiftl : positive -> n -> positive
 
   val iter_op : ('a1 -> 'a1 -> 'a1) -> positive -> 'a1 -> 'a1
@@ -128,6 +132,8 @@ module N :
   val coq_lor : n -> n -> n
 
   val coq_land : n -> n -> n
+
+  val ldiff : n -> n -> n
 
   val shiftl : n -> n -> n
 
@@ -318,6 +324,10 @@ val enter : vt -> vstate -> n -> vt * event list
 val set_uni : vt -> (ustate * n list) option -> vt
 
 val vt_step : vt -> n -> vt * event list
+
+val vt_run : vt -> n list -> vt * event list
+
+val spec_events : n list -> event list
 
 val is_ws_control : n -> bool
 
@@ -515,3 +525,146 @@ val strip_str_pieces : n list -> piece list option
 
 val strip_str_chunks :
   n list list -> state -> (piece list list * state) option
+
+type colour =
+| CAnsi of n
+| CIdx of n
+| CRgb of n * n * n
+
+type sstyle = { s_fg : colour option; s_bg : colour option;
+                s_ul : colour option; s_eff : n }
+
+val style_default : sstyle
+
+val bOLD : n
+
+val dIMMED : n
+
+val iTALIC : n
+
+val uNDERLINE : n
+
+val dOUBLE_UNDERLINE : n
+
+val cURLY_UNDERLINE : n
+
+val dOTTED_UNDERLINE : n
+
+val dASHED_UNDERLINE : n
+
+val bLINK : n
+
+val iNVERT : n
+
+val hIDDEN : n
+
+val sTRIKETHROUGH : n
+
+val bit : n -> n
+
+val eff_on : sstyle -> n -> sstyle
+
+val eff_off_mask : sstyle -> n -> sstyle
+
+val underline_mask : n
+
+val set_underline : sstyle -> n option -> sstyle
+
+val set_fg : sstyle -> colour option -> sstyle
+
+val set_bg : sstyle -> colour option -> sstyle
+
+val set_ulc : sstyle -> colour option -> sstyle
+
+type target =
+| TFg
+| TBg
+| TUl
+
+val set_target : target -> sstyle -> colour option -> sstyle
+
+val ext_target : n -> target option
+
+val in_rng : n -> n -> n -> bool
+
+val sgr_code : sstyle -> n -> sstyle
+
+val underline_kind : n -> n option option
+
+val sgr_groups : nat -> sstyle -> n list list -> sstyle
+
+val sgr_apply : sstyle -> n list list -> sstyle
+
+val event_style : sstyle -> event -> sstyle
+
+val is_ws_exec : n -> bool
+
+val interp : sstyle -> event list -> (sstyle * n) list * sstyle
+
+val colour_eqb : colour -> colour -> bool
+
+val opt_colour_eqb : colour option -> colour option -> bool
+
+val sstyle_eqb : sstyle -> sstyle -> bool
+
+val group_runs : (sstyle * n) list -> (sstyle * n list) list
+
+val spec_runs : n list -> (sstyle * n list) list
+
+type wstate =
+| WNormal
+| WPrepareCustomColor
+| WAnsi256
+| WRgb
+| WUnderline
+
+type dstate = { d_style : sstyle; d_state : wstate; d_r : n option;
+                d_g : n option; d_target : target }
+
+val st_insert : sstyle -> n -> sstyle
+
+val st_remove : sstyle -> n -> sstyle
+
+val style_eqb : sstyle -> sstyle -> bool
+
+val to_ansi_color : n -> n option
+
+val set_d : dstate -> sstyle -> wstate -> dstate
+
+val value_step : dstate -> n -> (dstate * bool) option
+
+val values_loop : dstate -> n list -> dstate option
+
+val params_loop : dstate -> n list list -> dstate option
+
+val sgr_dispatch : sstyle -> n list list -> sstyle option
+
+type capture = { c_style : sstyle; c_printable : n list;
+                 c_ready : sstyle option }
+
+val capture_default : capture
+
+val capture_event : capture -> event -> capture option
+
+val capture_events : capture -> event list -> capture option
+
+val wn_loop :
+  n list -> parser0 -> capture -> ((n list * parser0) * capture) option
+
+val wincon_next :
+  n list -> parser0 -> capture -> ((((sstyle * n list) option * n
+  list) * parser0) * capture) option
+
+val wincon_iter :
+  nat -> n list -> parser0 -> capture -> (((sstyle * n list)
+  list * parser0) * capture) option
+
+val extract_next :
+  n list -> parser0 -> capture -> (((sstyle * n list)
+  list * parser0) * capture) option
+
+val extract_chunks :
+  n list list -> parser0 -> capture -> (((sstyle * n list) list
+  list * parser0) * capture) option
+
+val merge_runs : (sstyle * n list) list -> (sstyle * n list) list
